@@ -48,8 +48,10 @@ def norm(term):
         return T('loaded', int(term['label']))
     if tag == 'out':
         return T('out', int(term['label']) + 1, [norm(term['args'][0])])
-    if tag in ('app', 'st'):
+    if tag == 'app':
         return T(tag, int(term['label']), [norm(a) for a in term['args'][1:]])
+    if tag == 'st':  # [params, previous state, features, labels, nonce]
+        return T(tag, int(term['label']), [norm(a) for a in term['args'][1:4]])
     raise ValueError(f'unexpected term {term}')
 
 
